@@ -19,4 +19,5 @@ rm -rf "$bak"
 python3 -c "
 import sys; sys.path.insert(0,'/verif')
 from lib import common
-print('regen after revert:', common.regen()[0])"
+print('regen after revert:', common.regen()[0])
+print('harness rebuilt on the clean tree:', common.build_harness(False)[0], common.build_harness(True)[0])"
